@@ -667,6 +667,10 @@ func runC03(w *World, r *Report, tier string) {
 
 	sessionErrCleared(w, r, "R2")
 
+	// ---- R7 the features consulted are those of the stream in progress
+	r.Rule("R7", "advertised on this stream: Session.Features is replaced as a whole after the stream open and after every restart by a value decoded into a fresh local, and every reply of the negotiation is decoded into a fresh local — encoding/xml neither clears its target nor truncates slices, so otherwise an optional step offered only before STARTTLS (or on an earlier connection) is still requested, and a member of an earlier reply classifies this one")
+	featuresFreshPerStream(w, r, "R7")
+
 	// ---- R6 no panic on a reply that lacks an optional child
 	{
 		r.Rule("R6", "no reply makes the negotiation panic: a method is called on an interface-typed member of a decoded reply (nil when the element lacks that child) only behind a nil test of it")
